@@ -286,3 +286,101 @@ package cache
 //@   ensures[C14] @policy (retained && evicted != nil && blockUsed(evicted)) ==> forall k int64 :: old(has(c.table, k)) ==> blockUsed(old(c.table[k]))
 //@   ensures[C14] @table rtableOK(c.table)
 //@   ensures[C14] @unlocked lockstate(c.mu) == 0
+
+//@ func Random.drop
+//@   mode int
+//@   props C14
+//@   requires 0 - 4611686018427387904 <= n && n <= 4611686018427387904
+//@   requires lockstate(c.mu) == 0 - 1 && c.table != nil && rtableOK(c.table)
+//@   modifies mapof(c.table)
+//@   loop 0 invariant @scan c.table == old(c.table) && lockstate(c.mu) == 0 - 1 && rtableOK(c.table) && 1 <= n && n <= old(n) &&
+//@       len(c.table) == old(len(c.table)) - (old(n) - n)
+//@   loop 1 invariant @rest c.table == old(c.table) && lockstate(c.mu) == 0 - 1 && rtableOK(c.table) && 1 <= n && n <= old(n) &&
+//@       len(c.table) == old(len(c.table)) - (old(n) - n) && (forall k int64 :: visited(1, k) ==> !has(c.table, k))
+//@   ensures[C14] @dropped old(n) >= 1 ==> len(c.table) <= max(old(len(c.table)) - old(n), 0)
+//@   ensures[C14] @noop old(n) < 1 ==> len(c.table) == old(len(c.table))
+//@   ensures[C14] @table rtableOK(c.table)
+//@   ensures[C14] @locked lockstate(c.mu) == 0 - 1
+
+//@ func Random.Drop
+//@   mode int
+//@   props C14
+//@   requires 0 - 4611686018427387904 <= n && n <= 4611686018427387904
+//@   requires lockstate(c.mu) == 0 && c.table != nil && rtableOK(c.table)
+//@   modifies lockstate(c.mu), mapof(c.table)
+//@   ensures[C14] @dropped n >= 1 ==> len(c.table) <= max(old(len(c.table)) - n, 0)
+//@   ensures[C14] @unlocked lockstate(c.mu) == 0
+
+//@ func Random.Resize
+//@   mode int
+//@   props C14
+//@   requires 0 - 2305843009213693952 <= n && n <= 2305843009213693952
+//@   requires lockstate(c.mu) == 0 && c.table != nil && rtableOK(c.table)
+//@   modifies lockstate(c.mu), mapof(c.table), c.cap
+//@   ensures[C14] @cap c.cap == n
+//@   ensures[C14] @fits len(c.table) <= max(n, 0)
+//@   ensures[C14] @unlocked lockstate(c.mu) == 0
+
+// StatsRecorder: the counters move exactly as documented, the wrapped cache is
+// called with the recorder's own lock held and released again, and what the
+// wrapped cache returns is handed back unchanged. The wrapped cache is any
+// bgzf.Cache: nothing is assumed about it except that it does not touch the
+// recorder.
+//@ trusted func ext:github.com/biogo/hts/bgzf.Cache.Get
+//@ trusted func ext:github.com/biogo/hts/bgzf.Cache.Put
+
+//@ func StatsRecorder.Stats
+//@   mode int
+//@   props C14
+//@   requires lockstate(s.mu) == 0
+//@   modifies lockstate(s.mu)
+//@   ensures[C14] @value result.Gets == s.stats.Gets && result.Misses == s.stats.Misses && result.Puts == s.stats.Puts &&
+//@       result.Retains == s.stats.Retains && result.Evictions == s.stats.Evictions
+//@   ensures[C14] @unlocked lockstate(s.mu) == 0
+
+//@ func StatsRecorder.Reset
+//@   mode int
+//@   props C14
+//@   requires lockstate(s.mu) == 0
+//@   modifies lockstate(s.mu), s.stats
+//@   ensures[C14] @zero s.stats.Gets == 0 && s.stats.Misses == 0 && s.stats.Puts == 0 && s.stats.Retains == 0 && s.stats.Evictions == 0
+//@   ensures[C14] @unlocked lockstate(s.mu) == 0
+
+//@ func StatsRecorder.Get
+//@   mode int
+//@   props C14
+//@   requires lockstate(s.mu) == 0 && s.Cache != nil
+//@   requires 0 <= s.stats.Gets && s.stats.Gets < 4611686018427387904 && 0 <= s.stats.Misses && s.stats.Misses < 4611686018427387904
+//@   modifies lockstate(s.mu), s.stats
+//@   ensures[C14] @gets s.stats.Gets == old(s.stats.Gets) + 1
+//@   ensures[C14] @misses s.stats.Misses == old(s.stats.Misses) + ite(result == nil, 1, 0)
+//@   ensures[C14] @others s.stats.Puts == old(s.stats.Puts) && s.stats.Retains == old(s.stats.Retains) && s.stats.Evictions == old(s.stats.Evictions)
+//@   ensures[C14] @unlocked lockstate(s.mu) == 0
+
+//@ func StatsRecorder.Put
+//@   mode int
+//@   props C14
+//@   requires lockstate(s.mu) == 0 && s.Cache != nil
+//@   requires 0 <= s.stats.Puts && s.stats.Puts < 4611686018427387904 && 0 <= s.stats.Retains && s.stats.Retains < 4611686018427387904 &&
+//@       0 <= s.stats.Evictions && s.stats.Evictions < 4611686018427387904
+//@   modifies lockstate(s.mu), s.stats
+//@   ensures[C14] @puts s.stats.Puts == old(s.stats.Puts) + 1
+//@   ensures[C14] @retains s.stats.Retains == old(s.stats.Retains) + ite(retained, 1, 0)
+//@   ensures[C14] @evictions s.stats.Evictions == old(s.stats.Evictions) + ite(retained && evicted != nil, 1, 0)
+//@   ensures[C14] @others s.stats.Gets == old(s.stats.Gets) && s.stats.Misses == old(s.stats.Misses)
+//@   ensures[C14] @unlocked lockstate(s.mu) == 0
+
+// Free: holds no lock of its own, asks for at least one eviction when it asks
+// at all, and returns.
+//@ trusted func ext:github.com/biogo/hts/bgzf/cache.Cache.Len
+//@   ensures 0 <= result && result <= 1099511627776
+//@ trusted func ext:github.com/biogo/hts/bgzf/cache.Cache.Cap
+//@   ensures 0 - 1099511627776 <= result && result <= 1099511627776
+//@ trusted func ext:github.com/biogo/hts/bgzf/cache.Cache.Drop
+//@   requires n >= 1
+
+//@ func Free
+//@   mode int
+//@   props C14
+//@   requires c != nil && 0 - 4611686018427387904 <= n && n <= 4611686018427387904
+//@   terminates
